@@ -27,7 +27,8 @@ Line(k, a, b, r) == [k |-> k, a |-> a, b |-> b, r |-> r]
 Fail(P, ln) ==
   CASE ln.k = "send" ->
          IF P.closed THEN "C11.write_after_close"
-         ELSE IF P.failed THEN ""   \* after a fatal error only "signalled" and "nothing after close" are required
+         ELSE IF P.failed THEN "C11.write_after_fatal"  \* the chunk that failed is lost: whatever is handed over now, the
+                                                        \* stream the OS gets is no longer a prefix of what was written
          ELSE IF ln.a = -1 THEN "C11.garbled"
          ELSE IF ln.a < P.acked THEN "C11.repeat"
          ELSE IF ln.a > P.acked THEN "C11.gap"
